@@ -129,6 +129,9 @@ pub struct ConsLog {
     pub tid:     AtomicU32,
     /// (stamp before, stamp after) the stream was dropped by its consumer
     pub drop_span: Mutex<Option<(u64, u64)>>,
+    /// FREE lane: (after the k-th yield, milliseconds) -- the polling consumer stays away that long (a consumer that is busy elsewhere:
+    /// the buffer fills up and the producers meet back-pressure for a while)
+    pub stalls:  Mutex<Vec<(u32, u32)>>,
 }
 impl ConsLog {
     pub fn ids(&self) -> Vec<u64> { self.yields.lock().unwrap().iter().map(|y| y.0).collect() }
@@ -187,6 +190,8 @@ pub fn polling_consumer_body(mut strm: Box<dyn Strm>, hold: Hold, log: Arc<ConsL
         log.tid.store(sched::my_tid() as u32, SeqCst);
         let w = noop_waker();
         let mut empties_after_stop = 0;
+        let stalls: Vec<(u32, u32)> = log.stalls.lock().unwrap().clone();
+        let mut nyield = 0u32;
         loop {
             let t0 = stamp();
             log.polls.fetch_add(1, SeqCst);
@@ -196,6 +201,8 @@ pub fn polling_consumer_body(mut strm: Box<dyn Strm>, hold: Hold, log: Arc<ConsL
                     match hold { Hold::Release => drop(item), Hold::Keep => log.held.lock().unwrap().push(item) }
                     empties_after_stop = 0;
                     sched::op_done();
+                    nyield += 1;
+                    for (k, ms) in &stalls { if *k == nyield { std::thread::sleep(std::time::Duration::from_millis(*ms as u64)) } }
                 }
                 Poll::Ready(None) => { log.ended.store(true, SeqCst); break }
                 Poll::Pending => {
